@@ -251,6 +251,10 @@ impl C15 {
             };
             extra.push(c09::build(&l, &suts).text);
         }
+        // statements that extend over several lines (a value list with continuation lines, a
+        // macro region), short enough that every line boundary is a cut candidate
+        extra.push(".data\nt: .word 1, 2\n    3, 4\n.text\n    ecall\n".into());
+        extra.push("    .macro inc\n    addi t0, t0, 1\n    .end_macro\n    li a7, 10\n    ecall\n".into());
         C15 {
             quick: Pool::new(1951),
             thorough: Pool::new(97),
@@ -267,6 +271,48 @@ impl C15 {
         }
         let (p, tag) = self.pool(tier).get(case - n)?;
         Some((tag, p.text()))
+    }
+
+    /// line ranges (first, last) of the statements that extend over several lines: a data
+    /// directive with continuation lines, a macro region (to its end directive or the end of the text)
+    pub fn multi_line_statements(lines: &[String]) -> Vec<(usize, usize)> {
+        let mut v = Vec::new();
+        let mut i = 0;
+        while i < lines.len() {
+            let words: Vec<&str> = lines[i].split_whitespace().collect();
+            let dir = words.iter().find(|w| w.starts_with('.')).copied().unwrap_or("");
+            if dir == ".macro" {
+                let mut j = i + 1;
+                while j < lines.len() && !lines[j].split_whitespace().any(|w| w == ".end_macro" || w == ".endmacro") {
+                    j += 1;
+                }
+                v.push((i, j.min(lines.len() - 1)));
+                i = j + 1;
+                continue;
+            }
+            if matches!(dir, ".word" | ".byte" | ".half" | ".dword" | ".float" | ".double") {
+                let mut j = i;
+                while j + 1 < lines.len() {
+                    let t = lines[j + 1].trim_start();
+                    let continues = t.is_empty() || t.starts_with('#') || t.starts_with(|c: char| c.is_ascii_digit() || c == '-' || c == '\'');
+                    if !continues {
+                        break;
+                    }
+                    j += 1;
+                }
+                // trailing blank / comment lines are not part of the statement
+                while j > i && { let t = lines[j].trim_start(); t.is_empty() || t.starts_with('#') } {
+                    j -= 1;
+                }
+                if j > i {
+                    v.push((i, j));
+                }
+                i = j + 1;
+                continue;
+            }
+            i += 1;
+        }
+        v
     }
 
     fn sig_single(text: &str) -> Option<Sig> {
@@ -514,9 +560,15 @@ impl Property for C15 {
         boundaries.dedup();
         let all_cuts = cuts(&boundaries, tier.pick(2, 3));
         let witness = |tree: &Tree, what: &str, detail: Value| json!({"case": case, "tier": tier.name(), "kind": tag, "files": tree.files, "pasted": text, "what": what, "detail": detail});
+        let multi = Self::multi_line_statements(&lines);
         for (ci, cut) in all_cuts.iter().enumerate() {
             let tree = build_tree(&lines, cut);
             acc.count("trees", 1);
+            // does a file boundary fall inside a statement that extends over several lines?
+            let splits = cut.ranges.iter().any(|r| [r.0, r.1].iter().any(|b| multi.iter().any(|(f, l)| f < b && b <= l)));
+            if splits {
+                acc.count("trees_that_split_a_statement", 1);
+            }
             if tree.files.len() >= 2 {
                 acc.count("nontrivial", 1);
             }
@@ -533,6 +585,14 @@ impl Property for C15 {
             acc.count("traces", 1);
             match Self::sig_tree(&tree, &run.diags) {
                 Ok(s) => {
+                    if s != flat_sig && splits {
+                        acc.violation(
+                            "C15|differs-from-pasted-file|a-statement-continues-across-the-include-boundary",
+                            case,
+                            witness(&tree, "a statement that extends over several lines is cut by the file boundary: the include tree is not analysed like the pasted file", json!({"pasted": flat_sig, "tree": s})),
+                        );
+                        continue;
+                    }
                     if s != flat_sig {
                         let missing: Vec<_> = flat_sig.iter().filter(|x| !s.contains(x)).collect();
                         let extra: Vec<_> = s.iter().filter(|x| !flat_sig.contains(x)).collect();
@@ -552,7 +612,7 @@ impl Property for C15 {
             }
             // ---- faults: every answer sequence with <= 1/2 faults over the imports of this tree
             let n_imports = tree.files.len(); // base + includes
-            if n_imports >= 2 {
+            if n_imports >= 2 && !splits {
                 let mut seqs: Vec<Vec<Answer>> = Vec::new();
                 for i in 1..n_imports {
                     for fa in FAULTS {
